@@ -18,9 +18,14 @@
   algorithm by induction on the level (Lemmas/HeapsArith.lean, Lemmas/HeapsAll.lean); the
   inverse theorems use the latter.  The tensor inverse theorems carry `names.1 ≠ names.2` (the
   `TensorRef` contract): the model of `Tensor::transpose_mut` resolves the requested order by name
-  (`tensor_transpose_by_name`, `tensor_transpose_equal_names`).
+  (`tensor_transpose_by_name`, `tensor_transpose_equal_names`); for constructed inputs it is discharged
+  (`inverse_some_iff_constructed`).  `det_congr`/`inverse_congr`: one answer per (size, cells);
+  `inverse_result_canonical`: the result is `Tensor::from(shape, buffer)`; `cramer`;
+  `inverse_matMul_identity`: composition with C03's model of the library's matrix product.
 -/
 import EasyMl.Lemmas.Det
+import EasyMl.Lemmas.Transform
+import EasyMl.Props.C03
 
 namespace EasyMl.C07
 open EasyMl EasyMl.Det Equiv
@@ -103,7 +108,7 @@ example : determinant (⟨[2, 0, 1, 1, 3, 2, 1, 1, 4], 3, 3⟩ : EasyMl.Matrix I
 
 /-- The determinant is absent exactly for non-square input — tensors and views of every size
     (dimension lengths of a tensor are at least 1). -/
-theorem det_none_iff_nonsquare {α : Type} [Add α] [Sub α] [Mul α] [Zero α] [One α] (v : View α)
+theorem det_none_iff_nonsquare {α : Type} [Add α] [Sub α] [Mul α] [Zero α] [One α] (v : Det.View α)
     (h1 : 1 ≤ v.rows) : determinantTensor v = none ↔ v.rows ≠ v.cols := by
   obtain ⟨n, c, g⟩ := v
   constructor
@@ -132,7 +137,7 @@ variable {K : Type} [Field K] [NumOrd K] {ν : Type} [DecidableEq ν] [Inhabited
 
 /-- **Present exactly when defined.**  `inverse_tensor` returns a tensor exactly when the view is
     square with non-zero determinant (every shape). -/
-theorem inverse_some_iff (heq : LawfulEq K) (names : ν × ν) (hne : names.1 ≠ names.2) (v : View K)
+theorem inverse_some_iff (heq : LawfulEq K) (names : ν × ν) (hne : names.1 ≠ names.2) (v : Det.View K)
     (h1 : 1 ≤ v.rows) :
     (∃ t, inverseTensor names v = .ok (some t)) ↔
       v.rows = v.cols ∧ (Matrix.of fun i j : Fin v.rows => v.get i j).det ≠ 0 := by
@@ -292,14 +297,14 @@ theorem inverse_entry_points_agree (names : ν × ν) (hne : names.1 ≠ names.2
   inverse_eq_inverseTensor names hne m hinv
 
 /-- Tensor results keep the input's dimension names (and order), lengths and a full buffer. -/
-theorem tensor_keeps_names (names : ν × ν) (v : View α) (t : Tensor ν α)
+theorem tensor_keeps_names (names : ν × ν) (v : Det.View α) (t : Tensor ν α)
     (h : inverseTensor names v = .ok (some t)) :
     t.shape = [(names.1, v.rows), (names.2, v.cols)] ∧ t.strides = computeStrides t.shape ∧
       t.data.length = v.rows * v.cols :=
   inverseTensor_shape names v t h
 
 /-- `inverse_tensor` (and with it `Matrix::inverse`) never panics. -/
-theorem inverse_total (names : ν × ν) (v : View α) : ∃ o, inverseTensor names v = .ok o :=
+theorem inverse_total (names : ν × ν) (v : Det.View α) : ∃ o, inverseTensor names v = .ok o :=
   inverseTensor_total names v
 
 end Agree
@@ -415,4 +420,169 @@ theorem tensor_transpose_equal_names (a : ν) (n : Nat) (data : List α) :
 example : ("column" : String) ≠ "row" := by decide
 
 end Names
+/-! ### One answer per (size, cells); canonical result; constructed inputs; Cramer; composition with C03 -/
+
+section Surface
+variable {α : Type} [Add α] [Sub α] [Mul α] [Div α] [Zero α] [One α] [NumOrd α]
+variable {ν : Type} [DecidableEq ν] [Inhabited ν]
+
+/-- **The determinant depends on the input only through (rows, columns, cells).**  Two sources —
+    whatever wrappers, forwarders, trait objects or view adaptors produced them — that report the
+    same two lengths and show the same cell at every in-range position get the same answer from
+    every determinant entry point (`none` included). -/
+theorem det_congr (v w : Det.View α) (hr : v.rows = w.rows) (hc : v.cols = w.cols)
+    (hcell : ∀ r c, r < v.rows → c < v.cols → v.get r c = w.get r c) :
+    determinantTensor v = determinantTensor w :=
+  detView_view_congr v w hr hc hcell
+
+/-- … and the same inverse: same presence, same buffer, same shape. -/
+theorem inverse_congr (names : ν × ν) (v w : Det.View α) (hr : v.rows = w.rows) (hc : v.cols = w.cols)
+    (hcell : ∀ r c, r < v.rows → c < v.cols → v.get r c = w.get r c) :
+    inverseTensor names v = inverseTensor names w :=
+  inverseTensor_congr names v w hr hc hcell
+
+/-- Non-vacuity: a 2×2 view and the same cells read out of a 3×4 buffer at offset (1, 2) (what a
+    `MatrixRange`/`TensorRange` wrapper shows); outside the shape the two sources differ. -/
+example : ∃ v w : Det.View Int, v.rows = w.rows ∧ v.cols = w.cols ∧ v.get 5 5 ≠ w.get 5 5 ∧
+    (∀ r c, r < v.rows → c < v.cols → v.get r c = w.get r c) :=
+  ⟨⟨2, 2, fun r c => ([1, 2, 3, 4] : List Int).getD (c + r * 2) 7⟩,
+   ⟨2, 2, fun r c => ([0, 0, 0, 0, 0, 0, 1, 2, 0, 0, 3, 4] : List Int).getD (c + 2 + (r + 1) * 4) 9⟩,
+   rfl, rfl, by decide, by
+     intro r c hr hc
+     have hr' : r = 0 ∨ r = 1 := by simp only at hr; omega
+     have hc' : c = 0 ∨ c = 1 := by simp only at hc; omega
+     rcases hr' with rfl | rfl <;> rcases hc' with rfl | rfl <;> rfl⟩
+
+/-- **Canonical form of the result.**  The tensor `inverse_tensor` returns is exactly
+    `Tensor::from(input shape, buffer)`: valid, strides row-major for its shape, the buffer in
+    shape order … -/
+theorem inverse_result_canonical (names : ν × ν) (hne : names.1 ≠ names.2) (v : Det.View α)
+    (h1 : 1 ≤ v.rows) (t : Tensor ν α) (h : inverseTensor names v = .ok (some t)) :
+    Tensor.tryFrom [(names.1, v.rows), (names.2, v.cols)] t.data = some t :=
+  (inverseTensor_canonical names hne v h1 t h).2
+
+/-- … hence reading it through its strides in logical order gives the buffer itself (C13's
+    `materialise`): every consumer that walks the raw buffer (`into_matrix`, `Matrix::from`,
+    `elementwise*`, `map_with_index`, `+`/`-` with a plain tensor, `reshape_owned`, owned iteration)
+    sees what index-by-index reading sees. -/
+theorem inverse_result_storage_is_logical (names : ν × ν) (hne : names.1 ≠ names.2) (v : Det.View α)
+    (h1 : 1 ≤ v.rows) (t : Tensor ν α) (h : inverseTensor names v = .ok (some t)) :
+    Spec.materialise t.view.lazy
+      = { shape := [(names.1, v.rows), (names.2, v.cols)], elems := t.data } :=
+  materialise_view _ _ t (inverse_result_canonical names hne v h1 t h)
+
+end Surface
+section Constructed
+variable {K : Type} [Field K] [NumOrd K] {ν : Type} [DecidableEq ν] [Inhabited ν]
+
+/-- **Hypotheses discharged by construction (tensors).**  For an input built by `Tensor::from` /
+    `try_from` nothing has to be assumed about names or lengths: the constructor already rejects
+    duplicate names and zero lengths. -/
+theorem inverse_some_iff_constructed (heq : LawfulEq K) (a b : ν) (r c : Nat) (data : List K)
+    (tin : Tensor ν K) (hin : Tensor.tryFrom [(a, r), (b, c)] data = some tin) :
+    (∃ t, inverseTensor (a, b) ⟨r, c, fun i j => data.getD (j + i * c) 0⟩ = .ok (some t)) ↔
+      r = c ∧ (Matrix.of fun i j : Fin r => data.getD ((j : Nat) + (i : Nat) * c) 0).det ≠ 0 := by
+  obtain ⟨hne, hr, _, _, _⟩ := (tryFrom_pair_iff a b r c data tin).1 hin
+  exact inverse_some_iff heq (a, b) hne ⟨r, c, fun i j => data.getD (j + i * c) 0⟩ hr
+
+/-- **Hypotheses discharged by construction (matrices).**  `Matrix::from_flat_row_major`
+    establishes the matrix invariant the matrix theorems assume. -/
+theorem matrix_inverse_some_iff_constructed (heq : LawfulEq K) (rows cols : Nat) (values : List K)
+    (m : EasyMl.Matrix K) (hm : Matrix.fromFlatRowMajor rows cols values = some m) :
+    (∃ r, inverse m = .ok (some r)) ↔
+      m.rows = m.columns ∧
+        (Matrix.of fun i j : Fin m.rows => m.data.getD ((j : Nat) + (i : Nat) * m.columns) 0).det ≠ 0 :=
+  matrix_inverse_some_iff heq m (fromFlatRowMajor_inv rows cols values m hm).1
+
+/-- Non-vacuity: the constructors accept a 2×2 input. -/
+example : (Tensor.tryFrom [("column", 2), ("row", 2)] ([1, 2, 3, 4] : List ℚ)).isSome = true ∧
+    (Matrix.fromFlatRowMajor 2 2 ([1, 2, 3, 4] : List ℚ)).isSome = true := by
+  constructor <;> rfl
+
+end Constructed
+
+section Cramer
+variable {R : Type} [CommRing R]
+
+/-- **Cramer's rule over any commutative ring** (the lemma behind `inverse_mul_self`, without any
+    division): the cofactor matrix the code fills, transposed in place, is the adjugate, so its
+    products with the input are `det A • 1` on both sides. -/
+theorem cramer (n : Nat) (h2 : 2 ≤ n) (get : Nat → Nat → R) :
+    ∃ cof, cofactorMatrix n (minorTensor ⟨n, n, get⟩) = .ok (some cof) ∧
+      (Matrix.of fun i j : Fin n => get i j) * matOfList n (transposeSquare n cof)
+        = (Matrix.of fun i j : Fin n => get i j).det • (1 : _root_.Matrix (Fin n) (Fin n) R) ∧
+      matOfList n (transposeSquare n cof) * (Matrix.of fun i j : Fin n => get i j)
+        = (Matrix.of fun i j : Fin n => get i j).det • (1 : _root_.Matrix (Fin n) (Fin n) R) := by
+  obtain ⟨m, rfl⟩ : ∃ m, n = m + 1 := ⟨n - 1, by omega⟩
+  obtain ⟨cof, hc, _, hadj⟩ := adjugate_buffer m (by omega) get
+  refine ⟨cof, hc, ?_, ?_⟩
+  · rw [hadj]; exact Matrix.mul_adjugate _
+  · rw [hadj]; exact Matrix.adjugate_mul _
+
+end Cramer
+section Compose
+open EasyMl.Arith
+variable {K : Type} [Field K] [NumOrd K] {ν : Type} [DecidableEq ν] [Inhabited ν]
+
+/-- entries of a constructed square tensor, as C03's `TView` shows them -/
+theorem ofTensor_entries (a b : ν) (n : Nat) (data : List K) (t : Tensor ν K)
+    (ht : Tensor.tryFrom [(a, n), (b, n)] data = some t) (i p : Fin n) :
+    (Arith.TView.ofTensor t).get [i.val, p.val] = some (matOfList n data i p) := by
+  obtain ⟨hv, hs, hd⟩ := tryFrom_valid ht
+  obtain ⟨_, _, _, hlen, _⟩ := (tryFrom_pair_iff a b n n data t).1 ht
+  show t.get [i.val, p.val] = _
+  rw [hv.get_eq [i.val, p.val] (by rw [hs]; rfl), hs, hd]
+  have hb : Spec.inBounds [n, n] [i.val, p.val] = true := by simp [Spec.inBounds, i.isLt, p.isLt]
+  simp only [List.map_cons, List.map_nil, hb, if_true]
+  have hr : Spec.ravel [n, n] [i.val, p.val] = p.val + i.val * n := by simp [Spec.ravel]; omega
+  rw [hr]
+  have hlt : p.val + i.val * n < data.length := by
+    rw [hlen]; exact mul_lt_of_lt_rows i.isLt p.isLt
+  rw [List.getElem?_eq_getElem hlt]
+  simp [matOfList, List.getD_eq_getElem?_getD, List.getElem?_eq_getElem hlt]
+
+/-- **Composition with C03's matrix product.**  For an input built by `Tensor::from`, the tensor
+    returned by `inverse_tensor`, multiplied with the input by the *library's own* `*`
+    (C03's model `Arith.matMul` of `tensor_view_matrix_product`) in either order, is the identity
+    tensor of the input's shape. -/
+theorem inverse_matMul_identity (heq : LawfulEq K) (a b : ν) (n : Nat) (data : List K)
+    (tin tinv : Tensor ν K) (hin : Tensor.tryFrom [(a, n), (b, n)] data = some tin)
+    (h : inverseTensor (a, b) ⟨n, n, fun i j => data.getD (j + i * n) 0⟩ = .ok (some tinv)) :
+    (∃ t, Arith.matMul (Arith.TView.ofTensor tinv) (Arith.TView.ofTensor tin) = .ok t ∧
+        t.shape = [(a, n), (b, n)] ∧
+        ∀ i j : Fin n, t.get [i.val, j.val] = some (if i = j then 1 else 0)) ∧
+    (∃ t, Arith.matMul (Arith.TView.ofTensor tin) (Arith.TView.ofTensor tinv) = .ok t ∧
+        t.shape = [(a, n), (b, n)] ∧
+        ∀ i j : Fin n, t.get [i.val, j.val] = some (if i = j then 1 else 0)) := by
+  obtain ⟨hne, h1, _, _, _⟩ := (tryFrom_pair_iff a b n n data tin).1 hin
+  have hcan := inverse_result_canonical (a, b) hne ⟨n, n, fun i j => data.getD (j + i * n) 0⟩ h1 tinv h
+  simp only at hcan
+  have hvin := (tryFrom_valid hin)
+  have hvinv := (tryFrom_valid hcan)
+  have hl := inverse_mul_self heq (a, b) hne n h1 _ tinv h
+  have hr := self_mul_inverse heq (a, b) hne n h1 _ tinv h
+  have hA : (Matrix.of fun i j : Fin n => data.getD ((j : Nat) + (i : Nat) * n) 0) = matOfList n data := rfl
+  rw [hA] at hl hr
+  obtain ⟨m, rfl⟩ : ∃ m, n = m + 1 := ⟨n - 1, by omega⟩
+  constructor
+  · obtain ⟨t, ht, hts, hget⟩ := C03.matMul_eq_Matrix_mul (Arith.TView.ofTensor tinv)
+      (Arith.TView.ofTensor tin) (ofTensor_WF hvinv.1) (ofTensor_WF hvin.1)
+      (a := a) (b := b) (c := a) (d := b) (m := m + 1) (n := m) (k := m + 1)
+      (by show tinv.shape = _; exact hvinv.2.1) (by show tin.shape = _; exact hvin.2.1) hne
+      (matOfList (m + 1) tinv.data) (matOfList (m + 1) data)
+      (fun i p => ofTensor_entries a b (m + 1) tinv.data tinv hcan i p)
+      (fun p j => ofTensor_entries a b (m + 1) data tin hin p j)
+    refine ⟨t, ht, hts, fun i j => ?_⟩
+    rw [hget i j, hl, Matrix.one_apply]
+  · obtain ⟨t, ht, hts, hget⟩ := C03.matMul_eq_Matrix_mul (Arith.TView.ofTensor tin)
+      (Arith.TView.ofTensor tinv) (ofTensor_WF hvin.1) (ofTensor_WF hvinv.1)
+      (a := a) (b := b) (c := a) (d := b) (m := m + 1) (n := m) (k := m + 1)
+      (by show tin.shape = _; exact hvin.2.1) (by show tinv.shape = _; exact hvinv.2.1) hne
+      (matOfList (m + 1) data) (matOfList (m + 1) tinv.data)
+      (fun i p => ofTensor_entries a b (m + 1) data tin hin i p)
+      (fun p j => ofTensor_entries a b (m + 1) tinv.data tinv hcan p j)
+    refine ⟨t, ht, hts, fun i j => ?_⟩
+    rw [hget i j, hr, Matrix.one_apply]
+
+end Compose
 end EasyMl.C07
